@@ -356,6 +356,16 @@ def purity(ctx, obs, rule='PURE'):
                     continue
                 w.append(l)
         obs.check(not w, rule, q, 'the estimator does not modify its input', f'writes {sorted(set(w))}', '', where(prog, f, f.node))
+    # support for the exemption of _check_demean's in-place 3-D arm: the tensor it receives is freshly allocated - the tensor
+    # builder never hands out (a view of) the dataset's own measurements
+    qt = 'data.dataset.Dataset.get_measurements_tensor'
+    ft = prog.func(qt)
+    st = heap.summary(qt)
+    locs = set(st.ret) | (set(st.ret_comps[0]) if st.ret_comps else set())
+    shared = sorted(l for l in locs if is_param_loc(l))
+    obs.check(not shared, 'STATE', qt, 'the measurements tensor is a new array (the in-place centring of _check_demean relies on it)',
+              f'get_measurements_tensor may return {shared} (a view of the dataset\'s own data): the in-place 3-D centring in _check_demean '
+              f'then demeans the caller\'s dataset', '', where(prog, ft, ft.node))
     # the 2-D arm of _check_demean centres a new array
     q = N + '_check_demean'
     f = prog.func(q)
